@@ -1013,6 +1013,18 @@ type vCrit struct {
 	tags  []string
 	subs  []string
 	nelem int
+	forms []vForm // bounds with variable arithmetic: sum coef*var + cst compared with 0
+}
+
+// a bound of a number (or time) filter as a linear form over stream attributes
+type vFormVar struct {
+	sub  string
+	time bool // ftime/ltime instead of a number attribute
+	idx  int  // number attribute index, or 0 ftime / 1 ltime
+}
+type vForm struct {
+	coef map[vFormVar]int64
+	cst  int64
 }
 
 func (c *vCrit) collect(e *vExpr) {
@@ -1082,6 +1094,57 @@ func (c *vCrit) collect(e *vExpr) {
 		case "id", "cport", "sport", "cbytes", "sbytes":
 			types = []int{vNumIdx[a.Key]}
 		}
+		// linear forms of the bounds that do arithmetic on variables (for valuations at the rounding gaps)
+		owns := []vFormVar{}
+		if a.Kind == "num" {
+			for _, t := range types {
+				owns = append(owns, vFormVar{sub: a.Sub, idx: t})
+			}
+		} else {
+			switch a.Key {
+			case "ftime":
+				owns = []vFormVar{{sub: a.Sub, time: true, idx: 0}}
+			case "ltime":
+				owns = []vFormVar{{sub: a.Sub, time: true, idx: 1}}
+			default:
+				owns = []vFormVar{{sub: a.Sub, time: true, idx: 0}, {sub: a.Sub, time: true, idx: 1}}
+			}
+		}
+		for _, rg := range a.Ranges {
+			for _, b := range rg {
+				hasVar := false
+				for _, p := range b.Parts {
+					hasVar = hasVar || p.IsVar
+				}
+				if !hasVar {
+					continue
+				}
+				for _, own := range owns {
+					f := vForm{coef: map[vFormVar]int64{own: -1}}
+					for _, p := range b.Parts {
+						sg := int64(1)
+						if p.Neg {
+							sg = -1
+						}
+						if !p.IsVar {
+							f.cst += sg * p.Num
+							continue
+						}
+						fv := vFormVar{sub: p.VSub}
+						if a.Kind == "num" {
+							fv.idx = vNumIdx[p.VName]
+						} else {
+							fv.time = true
+							if p.VName == "ltime" {
+								fv.idx = 1
+							}
+						}
+						f.coef[fv] += sg
+					}
+					c.forms = append(c.forms, f)
+				}
+			}
+		}
 		for _, rg := range a.Ranges {
 			for _, b := range rg {
 				cst := int64(0)
@@ -1127,9 +1190,13 @@ func (c *vCrit) collect(e *vExpr) {
 
 func (c *vCrit) stream(rng *rand.Rand, events []int) *vStream {
 	s := &vStream{Tags: map[string]int{}, Events: events}
+	small := len(c.forms) != 0 && rng.Intn(2) == 0
 	for t := 0; t < 5; t++ {
 		cand := append([]int64{0, 1, 2}, c.num[t]...)
-		if rng.Intn(8) == 0 {
+		if small {
+			// variable arithmetic: small values, so that sums and differences land near the constants
+			s.Num[t] = int64(rng.Intn(9))
+		} else if rng.Intn(8) == 0 {
 			s.Num[t] = int64(rng.Intn(70000))
 		} else {
 			s.Num[t] = cand[rng.Intn(len(cand))]
@@ -1179,6 +1246,87 @@ func (c *vCrit) stream(rng *rand.Rand, events []int) *vStream {
 		s.Tags[t] = 1 << uint(rng.Intn(4))
 	}
 	return s
+}
+
+// adjust moves one attribute of a valuation onto (or next to) the exact rational bound of one of the
+// linear forms: floor and ceil of the bound and one step beyond, where rounding in a simplifier would show.
+func (c *vCrit) adjust(rng *rand.Rand, v vVal) {
+	if len(c.forms) == 0 || rng.Intn(4) == 0 {
+		return
+	}
+	f := c.forms[rng.Intn(len(c.forms))]
+	vars := []vFormVar{}
+	for fv, co := range f.coef {
+		if co != 0 && v[fv.sub] != nil {
+			vars = append(vars, fv)
+		}
+	}
+	if len(vars) == 0 {
+		return
+	}
+	sort.Slice(vars, func(i, j int) bool {
+		a, b := vars[i], vars[j]
+		if a.sub != b.sub {
+			return a.sub < b.sub
+		}
+		if a.time != b.time {
+			return !a.time
+		}
+		return a.idx < b.idx
+	})
+	get := func(fv vFormVar) int64 {
+		s := v[fv.sub]
+		if fv.time {
+			if fv.idx == 0 {
+				return s.FTime
+			}
+			return s.LTime
+		}
+		return s.Num[fv.idx]
+	}
+	pick := vars[rng.Intn(len(vars))]
+	rest := f.cst
+	for _, fv := range vars {
+		if fv != pick {
+			rest += f.coef[fv] * get(fv)
+		}
+	}
+	co := f.coef[pick]
+	// coef*y + rest = 0  <=>  y = -rest/coef
+	num, den := -rest, co
+	if den < 0 {
+		num, den = -num, -den
+	}
+	fl := num / den
+	if num%den != 0 && num < 0 {
+		fl--
+	}
+	ce := fl
+	if num%den != 0 {
+		ce = fl + 1
+	}
+	cand := []int64{fl - 1, fl, ce, ce + 1}
+	y := cand[rng.Intn(len(cand))]
+	s := v[pick.sub]
+	if pick.time {
+		if pick.idx == 0 {
+			s.FTime = y
+		} else {
+			s.LTime = y
+		}
+		if s.FTime > s.LTime {
+			if pick.idx == 0 {
+				s.LTime = s.FTime
+			} else {
+				s.FTime = s.LTime
+			}
+		}
+		return
+	}
+	if y < 0 {
+		y = 0
+	}
+	s.Num[pick.idx] = y
 }
 
 func (c *vCrit) eventSeqs(rng *rand.Rand, n int) [][]int {
@@ -1518,6 +1666,7 @@ func vRunCaseSpec(i int, text string, spec *vExpr, nvals int, seed int64, hang t
 		for _, sq := range crit.subs {
 			v[sq] = crit.stream(rng, seqs[(j+len(sq))%len(seqs)])
 		}
+		crit.adjust(rng, v)
 		res.Vals = append(res.Vals, v)
 		impl = append(impl, vEvalSet(q.Conditions, v, elemID))
 		if ok2 && pr2.q != nil {
